@@ -44,6 +44,11 @@ CHECKS['C13'] = dict(
    note='Trusted: Lean kernel; axioms propext, Classical.choice, Quot.sound; dateutil (relativedelta years modelled and confirmed by a direct correspondence, ISO parsing observed only); the readings of the rule text written out in DESIGN.md (TF October-December outside the asserted range as the property says; road/XC cut-off = the 31 August on or before the day).',
    technique='Lean 4 proof (calendar arithmetic by omega, decision lists as threshold sums) + sharded boundary-dense correspondence with an independent rule oracle',
    ref='7/C13')
+CHECKS['C17'] = dict(
+   text='Machine-checked proofs over the decision tree of get_implement_weight regenerated from the Python ast on every run: for ANY event, gender and label string the weight is one of the table texts (or empty); non-throw codes pass through; a weight-specific code is the generic code + the table weight (+K); kernel-decided over the regenerated data: masters implements exist for every band V35..V150 and never get heavier, every code built for the library labels is in the language of PAT_THROWS and PAT_EVENT_CODE and spells the table weight, and every event-code key of the combined-events, Hungarian, Tyrving, QuadKids, Sportshall, Bulgarian and WMA tables is accepted by the general pattern. The translation is cross-checked exhaustively against the live functions on events x genders x ~600 labels; "already normalised" is checked on the implementation.',
+   note='Trusted: Lean kernel; axioms propext, Classical.choice, Quot.sound; tools/gen_implements.py and gen_regex.py (both cross-checked each run); ASCII labels. Where no weight is tabulated get_specific_event_code raises ValueError: observed, not demanded.',
+   technique='Lean 4 proof + decide +kernel over a decision tree regenerated from the Python ast and over live table keys',
+   ref='7/C17')
 NOT_YET = {}
 def main():
     props = [json.loads(l) for l in open(os.path.join(HERE, 'properties.jsonl'))]
